@@ -66,7 +66,7 @@ def gen_config(rng, stack: str) -> dict[str, Any]:
     if overlap:
         blocked = blocked + [known[0]]  # in both lists: block must win
     active = "18:006402" if stack == "port" else None
-    gw_mode = rng.choice(("known-explicit", "known-implicit", "unknown", "two-hgis", "blocked", "other-explicit"))
+    gw_mode = rng.choice(("known-explicit", "known-implicit", "unknown", "two-hgis", "blocked", "other-explicit", "other-explicit-blocked"))
     known_list: dict[str, dict[str, Any]] = {k: {} for k in known}
     block_list: dict[str, dict[str, Any]] = {b: {} for b in blocked}
     foreign = "18:111111"
@@ -79,6 +79,9 @@ def gen_config(rng, stack: str) -> dict[str, Any]:
         known_list["18:222222"] = {"class": "HGI"}
     elif gw_mode == "other-explicit":
         known_list["18:222222"] = {"class": "HGI"}
+    elif gw_mode == "other-explicit-blocked":  # the gateway the configuration predicts is also blocked: block wins
+        known_list["18:222222"] = {"class": "HGI"}
+        block_list["18:222222"] = {}
     elif gw_mode == "blocked":
         block_list["18:006402"] = {}
     return {
